@@ -18,9 +18,10 @@ def classify(d):
 def run(ctx):
     ctx.trusted_base += [
         "correspondence harness harness/allocator/verif_c07_test.go: real Scheduler.Run/mainLoop/taskLoop + TaskList over a fake StratumProxyInterface under synctest virtual time, quiescence (synctest.Wait) after every event; raw TaskList op sequences (thorough: all sequences of length <= 6 over 6 ops)",
+        "slow destination changes: the same real Scheduler over a proxy whose SetDest blocks until released (harness/allocator/verif_fake_test.go slowGate), so that add / remove / share / time land while the scheduler goroutine is inside SetDest; compared op by op with Model/SchedSlow.lean (goroutine position explicit, newTaskSignal as a one-token channel); a task found both cancelled and expired is ended with either reason by Go's select: those histories are flagged by the model and left out",
         "modelled, not verified: Model/Sched.lean (hand-written from scheduler.go and tasklist.go); the theorems are about this model, the harness compares it op by op with the code",
     ]
-    ctx.assumptions += ["events are handled one at a time (the scheduler reaches quiescence between two events); races between removal and completion are explored by the concurrent stress in the thorough tier only as far as the outcome is order-independent",
+    ctx.assumptions += ["events are handled one at a time (the scheduler reaches quiescence between two events — in the slow histories quiescence includes being blocked inside SetDest); races between removal and completion are explored by the concurrent stress in the thorough tier only as far as the outcome is order-independent",
                         "Go >= 1.23 timer semantics inside synctest (a deadline already in the past is seen by the first select)"]
     L.prove(ctx)
     if not L.build_driver(ctx):
@@ -31,6 +32,7 @@ def run(ctx):
     n = 300 if ctx.tier == "quick" else 5000
     seeds = [ctx.seed] if ctx.tier == "quick" else [str(int(ctx.seed) * 1000 + k) for k in range(3)]
     allcases = []
+    ambiguous = 0
     for sd in seeds:
         rc, out = L.run_harness(ctx, exe, TEST, env={"VERIF_N": n, "VERIF_MAXOPS": 40 if ctx.tier == "quick" else 80, "VERIF_SEED": sd})
         if rc != 0:
@@ -45,15 +47,34 @@ def run(ctx):
         # the model is the executable specification (Props/C07 are theorems about it): a difference is
         # a violation with the case as replay
         done = set()
+        # a task found both removed / finished and past its deadline: Go's select picks either reason; the slow model flags the
+        # history from there on and it is left out of the comparison
+        amb, cur = set(), None
+        for l in open(model, errors="replace"):
+            if l.startswith("# case"):
+                cur = l.rstrip("\n")
+            elif l.startswith("< AMBIGUOUS"):
+                amb.add(cur)
+        ambiguous += len(amb)
         for d in L.diff_cases(impl, model):
+            if d["header"] in amb:
+                continue
             sig, what = classify(d)
             if sig in done:
                 continue
             done.add(sig)
             ops = [o[2:] for o in L.case_ops(d["lines"], d["first"] + 1)]
+            slow = bool(ops) and ops[0] == "sinit"
+
+            def differs(c):
+                if slow and not (c and c[0] == "sinit"):
+                    return False
+                if not L.replay_differs(ctx, exe, TEST, "c07", c, TRANSCRIPT, "model"):
+                    return False
+                return "AMBIGUOUS" not in open(ctx.out + "/shrink/other.txt", errors="replace").read()
             try:
-                if L.replay_differs(ctx, exe, TEST, "c07", ops, TRANSCRIPT, "model"):
-                    ops = L.shrink_ops(ops, lambda c: L.replay_differs(ctx, exe, TEST, "c07", c, TRANSCRIPT, "model"))
+                if differs(ops):
+                    ops = L.shrink_ops(ops, differs)
             except Exception as e:
                 ctx.note("shrink failed: %r" % (e,))
             L.violation(ctx, sig, what, {"clause": sig, "case": d["header"], "ops": ["> " + o for o in ops],
@@ -75,7 +96,7 @@ def run(ctx):
         "evaluations": len(allcases), "distinct_nontrivial": L.distinct_count(allcases, nontrivial),
         "rule": "seeded event histories (add incl. bursts of adjacent tasks of one contract and already expired deadlines, remove-by-contract, shares summing exactly to / overshooting the work amount, time advances onto deadlines +-1ns, proxy exit with destination error / other error) on the real Scheduler under virtual time; raw TaskList sequences. Non-trivial scheduler case: at least one task put in service and one ended; distinct by op list",
         "case_kinds": kinds, "output_distribution": outs, "traces_validated_against_impl": len(allcases),
-        "exhaustive": False,
+        "exhaustive": False, "ambiguous_slow_histories_left_out": ambiguous,
     })
     ctx.samples += [{"case": h, "lines": lines[:20]} for h, lines in allcases[:2]]
 
